@@ -87,6 +87,11 @@ KDATA = [
     note('4', 'f', '#', ['T'], src='4f#T'),
     note('8', 'a', '-y', src='8a-y'),
     note('16', 'dd', '', ['k', 'k'], src='16ddkk'),
+    CH(note('4', 'C', '#'), note('4', 'E'), note('4', 'G')),
+    CH(note('8.', 'f', 'n', ['(']), note('8.', 'a', '-'), note('8.', 'cc')),
+    CH(note('2', 'GG', '--'), note('4', 'D', '', [';'])),
+    note('4', 'AA', '#', ['/', 'L'], src='4AA#/L'),
+    CH(note('4', 'D', '', ['[']), note('4', 'D'), note('4', 'A')),
     NULL_D,
 ]
 # duration-less notes and rests for **root columns (kernpy parses **root with the kern grammar)
@@ -142,11 +147,11 @@ LOOKALIKE = ['=foo', '=c', '.foo', '.ñ', '*clefG2x', '*clefG6', '*notatandem', 
 BAD = {
     'unknown-character': ['4c€', '€', '4c\x01'],
     'wrong-order': ['c4', '#4c'],
-    'truncated': ['4', '8.', '*clef', '*k[', '*M4/', '=:'],
+    'truncated': ['4', '8.', '*clef', '*k[', '*M4/', '=:', '*xywh-01:10,20,30', '*xywh-01', '*MM', '*staff', '*>[A', '4c 4'],
     'trailing': ['4cU', '4c%', '=1zz', '*clefG2x', '4c 4eU', '.x'],
 }
 COMM = [V('!', 'FIELD_COMMENTS'), V('!x', 'FIELD_COMMENTS'), V('!LO:N:t=abc', 'FIELD_COMMENTS'), V('! spaced', 'FIELD_COMMENTS')]
-GCOMM = ['!!!COM: Bach', '!!plain', '!!!OTL: Title', '!!!COM: second', '!! spaced comment', '!!!end: 1']
+GCOMM = ['!!!COM: Bach', '!!plain', '!!plain', '!!!OTL: Title', '!!!COM: second', '!! spaced comment', '!!!end: 1', '!!!COM: Bach']
 
 
 def text_cell(t, typ):
@@ -173,6 +178,8 @@ def interp_cell(typ, n, col, seed, with_key=False):
         return pick(pal, n, col, seed, 7, 3)
     if (n + col + seed) % 2 == 0:
         return pick(XINT, n, col, seed, 7, 3)
+    if (n + col + seed) % 5 == 1:
+        return V(['*IPiano', '*MM120', '*>A', '*ped'][(n + seed) % 4], OWN_CAT[typ])
     return NULL_I
 
 
